@@ -84,6 +84,43 @@ def run_transparent(case, ctx):
     ctx.mark_nontrivial(case['models'] != 'none' and case['step_kind'] != 'equal')
 
 
+def long_strategy():
+    return st.fixed_dictionaries({
+        'n': st.sampled_from([10001, 10400, 12000]),          # beyond Integrator.INITIAL_SIZE (10000 rows)
+        'time_step': st.sampled_from([7.3, 50.0, 0.9]),
+        'with_altitude': st.booleans(),
+        'models': st.sampled_from(['none', 'bias', 'full']),
+        'sub': st.integers(0, 2 ** 31 - 1),
+    })
+
+
+def run_transparent_long(case, ctx):
+    """(a) on a record longer than the integrator's initial buffer: the filter integrates in batches, plain integration in one
+    call; anything that happens when the buffers grow in the middle of a run must not show."""
+    from pyins import filters, strapdown, inertial_sensor as isn
+    n, wa = case['n'], case['with_altitude']
+    inc = gen.increments_table(case['sub'], n, t0=2.5, kind='uniform', theta_max=0.01, dv_max=0.1, vertical=-9.8)
+    pva = gen.to_pva({'lat': 48.0, 'lon': 11.0, 'alt': 500.0, 'speed': 7.0, 'vdir': [0.6, 0.8, 0.0], 'roll': 3.0, 'pitch': -2.0, 'heading': 70.0}, 2.5)
+    if not wa:
+        pva['VD'] = 0.0
+    kwargs = {'with_altitude': wa, 'time_step': case['time_step']}
+    if case['models'] == 'bias':
+        kwargs.update(gyro_model=isn.EstimationModel(bias_sd=1e-4, noise=1e-4), accel_model=isn.EstimationModel(bias_sd=1e-2, bias_walk=1e-4))
+    elif case['models'] == 'full':
+        kwargs.update(gyro_model=isn.EstimationModel(bias_sd=1e-4, noise=1e-4, scale_misal_sd=1e-3 * np.eye(3)),
+                      accel_model=isn.EstimationModel(bias_sd=1e-2, noise=1e-3, scale_misal_sd=1e-3))
+    res = ctx.sut(filters.run_feedback_filter, pva, 5.0, 0.5, 0.5, 1.0, inc, **kwargs)
+    plain = strapdown.Integrator(pva, wa).integrate(inc)
+    tr = res.trajectory
+    ctx.label(f"n={n}", f"models={case['models']}", 'mode=3D' if wa else 'mode=2D', f"step={case['time_step']}")
+    ctx.check(len(tr) == len(plain) and np.array_equal(np.asarray(tr.index, float), np.asarray(plain.index, float)), 'index_differs', '')
+    if not bits_equal(tr.values, plain.values):
+        bad = np.argwhere(np.ascontiguousarray(tr.values).view(np.uint64) != np.ascontiguousarray(plain.values).view(np.uint64))
+        r, c = bad[0]
+        ctx.check(False, 'not_transparent', f'case={case}: row {r} (t={tr.index[r]}) column {tr.columns[c]}: filter {tr.values[r, c]!r} vs plain integration {plain.values[r, c]!r}; {len(bad)} cells differ')
+    ctx.mark_nontrivial(True)
+
+
 # ------------------------------------------------------------------------------ (b) first order
 def fo_strategy():
     return st.fixed_dictionaries({
@@ -102,6 +139,7 @@ def fo_strategy():
         'placement': st.sampled_from(['rows', 'rows', 'between', 'between', 'first_interval', 'start']),
         'lever': st.booleans(),
         'dyn': st.sampled_from([0, 1, 1]),
+        't0': st.sampled_from([0.0, 0.0, 345600.0]),             # time origin (seconds-of-week style stamps)
         'sub': st.integers(0, 2 ** 31 - 1),
     })
 
@@ -116,12 +154,13 @@ def _fo_run(ctx, case, s):
     hz = 20
     dt = 1.0 / hz
     n = int(round(case['T'] * hz))
-    t = dt * np.arange(1, n + 1)
+    t0 = float(case.get('t0', 0.0))
+    t = dt * np.arange(1, n + 1)               # time since the origin (signals are functions of it); stamps are t0 + t
     crs = np.radians(case['heading'])
     v = case['speed']
     dyn = case.get('dyn', 0)
     roll0, pitch0 = (2.0, -3.0) if dyn == 0 else (20.0, -12.0)
-    pva = pd.Series([case['lat'], case['lon'], 200.0, v * np.cos(crs), v * np.sin(crs), 0.0, roll0, pitch0, case['heading']], index=TRAJ, name=0.0)
+    pva = pd.Series([case['lat'], case['lon'], 200.0, v * np.cos(crs), v * np.sin(crs), 0.0, roll0, pitch0, case['heading']], index=TRAJ, name=t0)
     C0 = np.asarray(ROT.dcm_from_rph(pva[EC.RPH].values.astype(float)), float)
     g = float(W.gravity(case['lat'], 200.0))
     w = 0.03 * np.column_stack([np.sin(0.3 * t + 0.2), np.cos(0.2 * t), np.sin(0.25 * t + 1.0)])
@@ -136,7 +175,7 @@ def _fo_run(ctx, case, s):
         Cm = C @ np.asarray(ROT.exp_so3(w[k] * dt / 2, float), float)
         fb[k] = Cm.T @ fn[k]
         C = C @ np.asarray(ROT.exp_so3(w[k] * dt, float), float)
-    clean = pd.DataFrame(np.column_stack([np.full(n, dt), w * dt, fb * dt]), index=pd.Index(t, name='time'), columns=gen.INC_COLS)
+    clean = pd.DataFrame(np.column_stack([np.full(n, dt), w * dt, fb * dt]), index=pd.Index(t0 + t, name='time'), columns=gen.INC_COLS)
     truth = strapdown.Integrator(pva, wa).integrate(clean)
     sds = (10.0 * s, 0.5 * s, 1.0 * s, 5.0 * s)
     smv = 1e-3 * s * np.eye(3) if case['sm'] else None
@@ -160,7 +199,7 @@ def _fo_run(ctx, case, s):
         err['down'] = 0.0
         err['VD'] = 0.0
     start = sim.perturb_pva(pva, err)
-    start.name = 0.0
+    start.name = t0
     ms = []
     rs = np.random.RandomState(case['sub'] ^ 0x77)
     from pyins import transform
@@ -178,7 +217,7 @@ def _fo_run(ctx, case, s):
         elif pl == 'start':
             pos, frac = np.r_[0, pos], np.r_[0.0, frac]
         rows = pd.DataFrame([truth.iloc[k] if a == 0 else interp_pose(truth.iloc[k], truth.iloc[k + 1], a) for k, a in zip(pos, frac)],
-                            index=pd.Index((pos + frac) * dt, name='time'), columns=TRAJ)
+                            index=pd.Index(t0 + (pos + frac) * dt, name='time'), columns=TRAJ)
         if arm is not None and cls != 'BodyVelocity':
             rates = pd.DataFrame(w[np.minimum(pos, n - 1)], index=rows.index, columns=['rate_x', 'rate_y', 'rate_z'])
             rows = transform.translate_trajectory(pd.concat([rows, rates], axis=1), arm)[TRAJ]       # the antenna's trajectory
@@ -242,6 +281,7 @@ def run_first_order(case, ctx):
               'shared_epochs' if (case['sub'] % 2 == 0 and len(case['sensors']) > 1) else 'separate_epochs',
               f"step={case['time_step']}", f"speed={case['speed']}", f"epochs={case.get('placement', 'rows')}",
               'lever' if case.get('lever') else 'no_lever', 'banked_turn' if case.get('dyn') else 'gentle',
+              't0=0' if not case.get('t0') else 't0=large',
               'bias_axes=leading_block' if (sorted(case.get('gyro_axes', [1]), reverse=True) == list(case.get('gyro_axes', [1])) and
                                             sorted(case.get('accel_axes', [1]), reverse=True) == list(case.get('accel_axes', [1]))) else 'bias_axes=gap_before_enabled')
     D = {}
@@ -331,6 +371,7 @@ def run_repro(case, ctx):
 
 CLAUSES = [
     Clause('transparent', _outside_strategy, run_transparent, quick=(64, 8), thorough=(2400, 16)),
+    Clause('transparent_long', long_strategy, run_transparent_long, quick=(12, 3), thorough=(96, 16), shrink_quick=False),
     Clause('first_order', fo_strategy, run_first_order, quick=(16, 4), thorough=(320, 16), shrink_quick=False),
     Clause('reproducible', sched.schedule_strategy(), run_repro, quick=(24, 4), thorough=(800, 16), shrink_quick=False),
 ]
